@@ -11,7 +11,7 @@ from .. import common, cfgrun
 from . import c15
 
 LEVEL = "proof"
-GOOD = b"indent_columns = 3\nsp_arith = force\nnl_end_of_file = force\nnl_end_of_file_min = 1\n"
+GOOD = b"indent_columns = 3\nsp_arith = force\nnl_end_of_file = force\nnl_end_of_file_min = 1\ncode_width = 9999\n"
 
 
 def bad_lines(opts, r, tier):
@@ -23,6 +23,12 @@ def bad_lines(opts, r, tier):
         if ty in ("signed", "unsigned") and o["lo"] is not None:
             out.append((n, "less", "%s = %d" % (n, o["lo"] - 1)))
             out.append((n, "greater", "%s = %d" % (n, o["hi"] + 1)))
+            # references whose (negated) value falls outside the range: code_width is 9999 in the good config
+            if n != "code_width":
+                if o["lo"] > -9999:
+                    out.append((n, "less", "%s = -code_width" % n))
+                if o["hi"] < 9999:
+                    out.append((n, "greater", "%s = code_width" % n))
             if tier == "thorough" or len(n) % 5 == 0:
                 out.append((n, "bad-value", "%s = abc" % n))
                 out.append((n, "bad-value", "%s = 12x" % n))
